@@ -9,5 +9,7 @@ pub mod compaction;
 pub mod damage;
 pub mod engine;
 pub mod oracle;
+pub mod pipefail;
 pub mod table;
 pub mod wal;
+pub mod walfail;
